@@ -51,7 +51,8 @@ type opts struct {
 	sameBase        bool  // add x/common.thrift and y/common.thrift
 	viaLocalTypedef bool  // enum values written through a local typedef of an included (typedef'd) enum
 	unusedIncl      bool
-	valOnly         int // 1: an include referred to only through constant identifiers is main's FIRST include, 2: its last
+	dotted          bool // an include whose base name contains dots (palette.v2.thrift)
+	valOnly         int  // 1: an include referred to only through constant identifiers is main's FIRST include, 2: its last
 }
 
 // build constructs the program under the given options.
@@ -116,6 +117,20 @@ func build(o opts) *program {
 		u.Add(&idl.Struct{Cat: "struct", Name: "US", Fields: []*idl.Field{fld(1, "v", i32, nil)}})
 		incs = append(incs, &idl.Include{Path: "u.thrift", File: u})
 		files = append(files, u)
+	}
+	var shade *idl.Enum
+	var pvk *idl.Const
+	var pvs *idl.Struct
+	if o.dotted {
+		pv := &idl.File{Path: "palette.v2.thrift", Namespaces: []*idl.Namespace{{Lang: "go", Name: "p.palettev2"}}}
+		shade = &idl.Enum{Name: "Shade", Values: []*idl.EnumValue{{Name: "GREEN", Value: 2, Explicit: true}, {Name: "RED"}}}
+		pv.Add(shade)
+		pvk = &idl.Const{Name: "PVK", Type: i32, Value: idl.VI(9)}
+		pv.Add(pvk)
+		pvs = &idl.Struct{Cat: "struct", Name: "PS", Fields: []*idl.Field{fld(1, "v", i32, nil)}}
+		pv.Add(pvs)
+		incs = append(incs, &idl.Include{Path: "palette.v2.thrift", File: pv})
+		files = append(files, pv)
 	}
 	var vk *idl.Const
 	if o.valOnly > 0 {
@@ -198,6 +213,11 @@ func build(o opts) *program {
 		{Name: "K10", Type: idl.ListOf(idl.MapOf(str, idl.EnumT(color))), Value: idl.VL(idl.VM([2]*idl.Value{idl.VS("k"), idl.VC(bcol)}), idl.VM([2]*idl.Value{idl.VC(lstr), idl.VE(color, color.Values[0])}))},
 		{Name: "K11", Type: idl.SetOf(idl.ListOf(idl.MapOf(idl.EnumT(l), i32))), Value: idl.VL(idl.VL(idl.VM([2]*idl.Value{idl.VE(l, l.Values[1]), idl.VC(lc)})))},
 	}
+	if shade != nil {
+		consts = append(consts, &idl.Const{Name: "KD1", Type: idl.EnumT(shade), Value: idl.VE(shade, shade.Values[0])}, &idl.Const{Name: "KD2", Type: i32, Value: idl.VC(pvk)},
+			&idl.Const{Name: "KD3", Type: idl.MapOf(idl.EnumT(shade), idl.ListOf(idl.EnumT(shade))), Value: idl.VM([2]*idl.Value{idl.VE(shade, shade.Values[1]), idl.VL(idl.VE(shade, shade.Values[0]))})})
+		ms.Fields = append(ms.Fields, fld(31, "f31", idl.EnumT(shade), idl.VE(shade, shade.Values[1])), fld(32, "f32", idl.StructT(pvs), nil), fld(33, "f33", i32, idl.VC(pvk)))
+	}
 	if vk != nil {
 		consts = append(consts, &idl.Const{Name: "KV1", Type: i32, Value: idl.VC(vk)}, &idl.Const{Name: "KV2", Type: idl.MapOf(str, i32), Value: idl.VM([2]*idl.Value{idl.VS("a"), idl.VC(vk)})})
 		ms.Fields = append(ms.Fields, fld(30, "f30", i32, idl.VC(vk)))
@@ -239,7 +259,7 @@ func build(o opts) *program {
 			addRest(p)
 		}
 	}
-	return &program{name: fmt.Sprintf("perm=%v swap=%v layout=%d same=%v unused=%v via=%v valonly=%d", o.tdPerm, o.incSwap, o.layout, o.sameBase, o.unusedIncl, o.viaLocalTypedef, o.valOnly), files: files, main: m}
+	return &program{name: fmt.Sprintf("perm=%v swap=%v layout=%d same=%v unused=%v via=%v valonly=%d dotted=%v", o.tdPerm, o.incSwap, o.layout, o.sameBase, o.unusedIncl, o.viaLocalTypedef, o.valOnly, o.dotted), files: files, main: m}
 }
 
 func perms(n int) [][]int {
@@ -632,6 +652,7 @@ func main() {
 		optsList = append(optsList, opts{tdPerm: p, viaLocalTypedef: true}, opts{tdPerm: p, viaLocalTypedef: true, incSwap: true, layout: 3})
 		optsList = append(optsList, opts{tdPerm: p, sameBase: true}, opts{tdPerm: p, unusedIncl: true, incSwap: true, layout: 2}, opts{tdPerm: p, sameBase: true, unusedIncl: true, layout: 1})
 		optsList = append(optsList, opts{tdPerm: p, valOnly: 1}, opts{tdPerm: p, valOnly: 2, layout: 2}, opts{tdPerm: p, valOnly: 1, unusedIncl: true, layout: 3})
+		optsList = append(optsList, opts{tdPerm: p, dotted: true}, opts{tdPerm: p, dotted: true, incSwap: true, layout: 1})
 	}
 	var mu sync.Mutex
 	trees := map[string]string{} // variant (swap/same/unused) -> canonical tree
@@ -676,7 +697,7 @@ func main() {
 					// incSwap changes include indices but the tree text only records whether a
 					// Reference is present, so all permutations, layouts and include orders of
 					// one file set must agree
-					variant := fmt.Sprintf("same=%v unused=%v via=%v valonly=%v", o.sameBase, o.unusedIncl, o.viaLocalTypedef, o.valOnly > 0)
+					variant := fmt.Sprintf("same=%v unused=%v via=%v valonly=%v dotted=%v", o.sameBase, o.unusedIncl, o.viaLocalTypedef, o.valOnly > 0, o.dotted)
 					mu.Lock()
 					if prev, ok := trees[variant]; !ok {
 						trees[variant] = tree
